@@ -13,6 +13,14 @@ PROJECTS = {
     # a docstring with a same-class reference, inherited by an overriding method of a subclass (known finding KF-C11-inherited-docstring-context)
     'inherited_links': {'ih/__init__.py': 'class Base:\n    def a(self):\n        """See L{b}.\n\n        More about L{b} and L{Base.b}.\n        """\n'
                                           '    def b(self):\n        "doc b"\nclass Sub(Base):\n    def a(self):\n        pass\n'},
+    # docstrings with section titles (sidebar table of contents) on a package, a module and a class
+    'toc_sections': {'tc/__init__.py': '"""\nPackage.\n\nUsage\n=====\n\nText.\n\nDetails\n=======\n\nMore.\n"""\nclass InPkg:\n    """Class doc.\n\n    Notes\n    =====\n\n    n\n    """\n    def m(self): pass\n',
+                     'tc/sub.py': '"""\nSub module.\n\nOverview\n========\n\nText.\n"""\nclass K:\n    def m(self): "doc"\ndef f(): pass\n'},
+    'non_ascii': {'un/__init__.py': '"""Pkg. See L{Ünï} and L{Ünï.méth}."""\nclass Ünï:\n    "doc"\n    def méth(self): "doc"\n    class Ñested: pass\ndef fné(): "doc"\n',
+                  'un/módulo.py': 'from un import Ünï\nclass Sub(Ünï): pass\n'},
+    'footnotes': {'fn/__init__.py': '__docformat__ = "restructuredtext"\n"""\nText with a footnote [1]_ and another [#named]_.\n\n.. [1] The first.\n.. [#named] The second.\n"""\n'
+                                   'def f():\n    """Cites [CIT2002]_.\n\n    .. [CIT2002] A citation.\n    """\n'},
+    'reexport_defaults': {'rd/__init__.py': 'from rd._impl import f\n__all__ = ["f"]\n', 'rd/_impl.py': 'def g(): "doc"\nCONST = 1\ndef f(a=g, b=CONST, c: "g" = None):\n    "uses L{g}"\n'},
     'two_roots': {'alpha.py': '"""Alpha. See L{beta.B}."""\nclass A: pass\n', 'beta.py': 'class B:\n    def m(self): pass\n'},
 }
 
@@ -23,6 +31,12 @@ def _cases(tier, seed):
     yield {'privacy': 0, 'project': 'dups'}
     yield {'privacy': 0, 'project': 'two_roots'}
     yield {'privacy': 0, 'project': 'inherited_links'}
+    yield {'privacy': 0, 'project': 'toc_sections'}
+    yield {'privacy': 0, 'project': 'toc_sections', 'extra': ['--sidebar-expand-depth', '3', '--sidebar-toc-depth', '3']}
+    yield {'privacy': 0, 'project': 'non_ascii'}
+    yield {'privacy': 0, 'project': 'footnotes'}
+    yield {'privacy': 0, 'project': 'reexport_defaults'}
+    yield {'privacy': 0, 'project': 'toc_sections', 'extra': ['--theme', 'readthedocs', '--sidebar-expand-depth', '1']}
     yield {'privacy': 0, 'project': 'summary_names'}
     yield {'privacy': 0, 'project': 'index_root'}
     yield {'privacy': 0, 'project': 'two_roots', 'rules': ['HIDDEN:beta']}
